@@ -860,7 +860,14 @@ fn frontend_start(
                     }
 
                     if *mod_atom == b"mod" {
-                        let args = Rc::new(x[1].clone());
+                        let args = if let Some(a) = x.get(1) {
+                            Rc::new(a.clone())
+                        } else {
+                            return Err(CompileErr(
+                                pre_forms[0].loc(),
+                                "mod form requires an argument list".to_string(),
+                            ));
+                        };
                         let body_vec: Vec<Rc<SExp>> =
                             x.iter().skip(2).map(|s| Rc::new(s.clone())).collect();
                         let body = Rc::new(enlist(pre_forms[0].loc(), &body_vec));
